@@ -231,7 +231,10 @@ def run_brew(case, workdir=None, keep=False):
                     dsets = build_inputs(case, wd)
                     kw2 = dict(kw)
                     kw2["rng"] = int(case["refeed_seed"])
-                    ret = mokapot.brew(dsets, list(ret[1]), **kw2)
+                    ms = list(ret[1])
+                    if case.get("refeed_reverse"):
+                        ms = ms[::-1]             # the user lists the models in another order (brew sorts them by fold)
+                    ret = mokapot.brew(dsets, ms, **kw2)
         except Exception as e:
             raised = "%s: %s" % (type(e).__name__, str(e)[:160])
             rtype = type(e).__name__
